@@ -200,7 +200,12 @@ func suiteCase(r *rng.R, dir string) string {
 		}
 		verdicts = append(verdicts, v)
 		data := fmt.Sprintf("{\"Name\":%q,\"TestDriverSource\":%q,\"TestScript\":%q}", tc.Name, tc.TestDriverSource, tc.TestScript)
-		writeFile(sub, fmt.Sprintf("c%d.json", i), []byte(data))
+		// case file names with additional dots are case files like any other
+		fname := fmt.Sprintf("c%d.json", i)
+		if r.Chance(35) {
+			fname = fmt.Sprintf("c%d.%s.json", i, []string{"signed", "v2", "a.b"}[r.Intn(3)])
+		}
+		writeFile(sub, fname, []byte(data))
 	}
 	cfg := emuconfig.DefaultConfig()
 	ce := caseexec.NewCaseExec(cfg, fakeAsmProv{fa}, repo, false)
